@@ -233,7 +233,7 @@ impl Drop for VPtr {
                     a.free.push(s);
                 }
             });
-            if o.pdrop.load(Relaxed) == 1 {
+            if o.pdrop.load(Relaxed) == 1 && !std::thread::panicking() {
                 panic!("asv: user destructor panics (object {})", id);
             }
         }
